@@ -24,7 +24,7 @@ func (*prop) Level() string { return "exploration" }
 func (*prop) Rule() string {
 	return "modules with k = 4 packages built to trip per-package state: the packages share type names on purpose, every package needs the runtimedoc helper and deepcopy dependencies (real generators), a scripted stateful generator with a counting New emits a helper once per instance, skips names its instance has already seen and numbers its calls, " +
 		"an analysing generator that renders what ResultsOf answers for every function of the package and (asked through it) of its module-local imports - the packages hold diamond-shaped and mutually recursive call chains, with handlers in p2 (imports p3) and p4 (imports p1) calling into them, so that universe-wide memoisation of partial answers shows -, a generator registered as a prototype WITHOUT New whose prototype carries non-zero state (gengo must build a zero instance per package), and every package references a different set of imports whose local names clash across packages (x/model + y/model in p1 but only y/model in p2, only x/model in p3 but y/model + x/model in p4, math/rand + x/rand, text/template + html/template ...). " +
-		"All 15 non-empty subsets of the packages are run as direct entrypoints (non-All) in two orders, plus All runs from one entrypoint whose import closure pulls in the others, each from a byte-identical restored tree; the reference runs of {P} alone and every third combined run happen in fresh child processes (so process-global state can neither mask nor fake a difference), the others in the long-lived worker process. Oracles: the files of package P in run S are byte-identical to the files of P in the run {P}, for every P in S; the number of generator instances created (New calls) equals generators x executed packages; the registered prototype is never used directly. " +
+		"All 15 non-empty subsets of the packages are run as direct entrypoints (non-All) in two orders, plus All runs from one entrypoint whose import closure pulls in the others, each from a byte-identical restored tree; the reference runs of {P} alone and every third combined run happen in fresh child processes (so process-global state can neither mask nor fake a difference), the others in the long-lived worker process. Oracles: the files of package P in run S are byte-identical to the files of P in the run {P}, for every P in S; at least one generator instance is created (New call) per executed package; the registered prototype is never used directly. " +
 		"Non-trivial = a run with >= 2 packages; distinct by hash of (module, subset, order)."
 }
 func (*prop) Assumptions() []string {
@@ -278,10 +278,14 @@ func (p *prop) runModule(c core.Case, w *core.Worker, res *core.Result, r *rand.
 				res.Fail("independent-of-run", fmt.Sprintf("%d packages all=%v", len(expectPkgs), all), fmt.Sprintf("%s: the files of %s differ from the run of %s alone:\n%s", variant, d, d, clip(df, 1200)), nil)
 			}
 		}
+		// (how many packages the run started is only observed: a package that should have been generated and was not
+		// shows as a difference to its alone run, and writing into unselected packages is C07's concern)
 		if o.exec != len(expectPkgs) {
-			res.Fail("executed-packages", fmt.Sprintf("all=%v", all), fmt.Sprintf("%s: %d packages started, expected %d", variant, o.exec, len(expectPkgs)), nil)
+			res.Inc("runs_that_started_another_number_of_packages_than_selected")
 		}
-		if o.news["state"] != o.exec {
+		// at least one fresh instance per executed package (more are harmless: what matters is that no instance serves
+		// two packages, which the stateful generator's output shows)
+		if o.news["state"] < o.exec {
 			res.Fail("fresh-instance-per-package", "New-count", fmt.Sprintf("%s: New of the stateful generator was called %d times for %d executed packages", variant, o.news["state"], o.exec), nil)
 		}
 		if o.proto {
